@@ -326,6 +326,13 @@ func runProgram(c *PCase) (st pStats, err error) {
 					}
 					sn.Release()
 					record(cid, linIn{kind: 2}, linOut{cut: encState(m)}, call, ret)
+				case "compact":
+					// changes no contents: not part of the history, but it rotates the write
+					// buffer and rewrites tables under the other clients' feet
+					if e := db.CompactRange(util.Range{}); e != nil {
+						firstErr.CompareAndSwap(nil, fmt.Errorf("client %d CompactRange: %v", cid, e))
+						return
+					}
 				case "has":
 					h, e := db.Has([]byte(key(op.K)), nil)
 					ret := int64(time.Since(start))
@@ -406,7 +413,7 @@ func drawPCase(t *rapid.T) *PCase {
 		DisableSeeksComp: rapid.Bool().Draw(t, "noseek"), OpenFilesCap: rapid.SampledFrom([]int{0, 2}).Draw(t, "ofc")}
 	c.NKeys = rapid.IntRange(2, 6).Draw(t, "nkeys")
 	nc := rapid.IntRange(2, 6).Draw(t, "clients")
-	kinds := []string{"put", "put", "put", "del", "batch", "batch", "get", "get", "has", "snapscan", "snapget", "iterscan", "tr"}
+	kinds := []string{"put", "put", "put", "del", "batch", "batch", "get", "get", "has", "snapscan", "snapget", "iterscan", "tr", "compact"}
 	og := rapid.Custom(func(t *rapid.T) POp {
 		op := POp{T: rapid.SampledFrom(kinds).Draw(t, "op"), K: rapid.IntRange(0, c.NKeys-1).Draw(t, "k")}
 		op.N = rapid.SampledFrom([]int{0, 10, 100, 300, 1200}).Draw(t, "n")
